@@ -263,10 +263,10 @@ static inline byte_array bytes_from_hex(const char *str, size_t len)
 {
     byte_array vec(len / 2);
     int result = ::ascon_bytes_from_hex(vec.data(), vec.size(), str, len);
-    if (result != -1)
-        return vec;
-    else
+    if (result == -1)
         return byte_array();
+    vec.resize((size_t)result);
+    return vec;
 }
 
 /**
